@@ -26,4 +26,15 @@ class Unpicklable:
         raise TypeError('this object refuses to be pickled')
 
 
+def _explode():
+    raise ValueError('this object refuses to be unpickled')
+
+
+class ExplodesOnLoad:
+    """pickles fine (in the child); loading it (in the parent) raises"""
+
+    def __reduce__(self):
+        return (_explode, ())
+
+
 USER = {(0, 20): UserError, (0, 20, 0): UserErrorSub}
